@@ -222,6 +222,9 @@ def run_harness(exe, hfile, trace, mis, nlines, asan=False, timeout=900, max_dea
         if rc == 2:
             rc2, out2 = run([exe, hfile, trace + ".again", str(first), str(mis)], timeout=120, env=env)
             raise Broken("harness usage/IO error: %s (first=%d mis=%d): %s" % (exe, first, mis, out2[-800:]))
+        if rc == 124:            # our own time budget, not a hang of the camera (the harness has its own per-history alarm)
+            stopped_early = True
+            break
         deaths += 1
         last, tail = -1, ""
         with open(trace, "rb") as f:
@@ -235,7 +238,7 @@ def run_harness(exe, hfile, trace, mis, nlines, asan=False, timeout=900, max_dea
         tail = lines[-1] if lines else ""
         if not any(k in tail for k in ('"Crash"', '"StrayAccess"', '"Hang"')):
             with open(trace, "a") as f:
-                f.write('\n{"e":"%s","sig":%d}\n' % ("Hang" if rc == 124 else "Crash", 0 if rc == 124 else rc))
+                f.write('\n{"e":"Crash","sig":%d}\n' % (-rc if rc < 0 else rc))
         if last < 0:
             raise Broken("harness died before its first history (rc=%s): %s" % (rc, exe))
         first = last + 1
